@@ -45,6 +45,7 @@ structure PlainBase (g : GCtx) (ip : Bool) (n : String) (x bn : String) : Prop w
   post : postTy g.tps (.named bn) = .named bn
   prints : nameExpr bn = .name x
   adds : nameAdds bn = nameAdds n
+  head : ∀ d needs, EnvOK g d needs → ∀ pre, tyName pre = bn → (∀ m, pre ≠ .named m) → HeadOK d pre
 
 theorem plainBase_of_fBase {g : GCtx} (hg : GOK g) (ip : Bool) {n : String} (hf : fBase g n = true)
     (hnt : nameExpr n ≠ .name "tuple") (hnc : n ≠ "typing.Callable")
@@ -77,7 +78,10 @@ theorem plainBase_of_fBase {g : GCtx} (hg : GOK g) (ip : Bool) {n : String} (hf 
       rw [this, simpleNorm_neg htp hNone]
     have hna : nameAdds n = [] := by
       rcases hc with hc | hc <;> (unfold nameAdds; rw [hc])
-    refine ⟨x, x, ⟨hexpr, hnorm, ?_, ?_, ?_, ?_, ?_, ?_, ?_, ?_, ?_, ?_⟩⟩
+    have hFin : x ≠ "Final" := ne_of_not_contains hres (by decide)
+    have hTA : x ≠ "TypeAlias" := ne_of_not_contains hres (by decide)
+    refine ⟨x, x, ⟨hexpr, hnorm, ?_, ?_, ?_, ?_, ?_, ?_, ?_, ?_, ?_, ?_,
+      fun d needs henv pre hp _ => headOK_single henv hx halias hFin hTA hp⟩⟩
     · intro d needs henv; exact special_single henv hx halias r1 r2 hxt r3 r4 r5
     · intro d needs henv; exact special_single henv hx halias r1 r2 hxt r3 r4 r5
     · intro d henv; exact resolveType_other henv hadds halias r6
@@ -92,14 +96,15 @@ theorem plainBase_of_fBase {g : GCtx} (hg : GOK g) (ip : Bool) {n : String} (hf 
     have hid := mName_typing hc hm
     obtain ⟨hn, hcn, hx⟩ := classify_typing hc
     obtain ⟨hban, b1, b2, b3, b4⟩ := bannedBase_facts hb
-    obtain ⟨hlk, hAny, hOpt, hUn, hInt, hNT, hnothing, _, _, hTup, htup⟩ := typingBanned_facts hban
+    obtain ⟨hlk, hAny, hOpt, hUn, hInt, hNT, hnothing, hFin, hTA, hTup, htup⟩ := typingBanned_facts hban
     have hNone := identOK_ne_None hid
     have hexpr : nameExpr n = .name x := by
       unfold nameExpr; rw [hc]; unfold simpleNameExpr; simp [hNT, hNone]
     have hna : nameAdds n = [x] := by unfold nameAdds; rw [hc]
     have hxadds : x ∈ g.adds := hsub x (by rw [hna]; simp)
     have halias := adds_not_alias hg hxadds
-    refine ⟨x, n, ⟨hexpr, by unfold normName; rw [hc], ?_, ?_, ?_, ?_, ?_, ?_, ?_, ?_, hexpr, rfl⟩⟩
+    refine ⟨x, n, ⟨hexpr, by unfold normName; rw [hc], ?_, ?_, ?_, ?_, ?_, ?_, ?_, ?_, hexpr, rfl,
+      fun d needs henv pre hp hnn => headOK_typing_sub hcn hFin hTA hp hnn⟩⟩
     · intro d needs henv; exact special_single henv hx halias b1 b2 htup hTup b3 b4
     · intro d needs henv; exact special_typing hcn b1 b2 hTup b3 b4
     · intro d henv
@@ -186,7 +191,7 @@ theorem good_generic_plain {g : GCtx} (hg : GOK g) (ip : Bool) (b : Ty) (ps : Li
       cases ps with
       | nil => exact absurd rfl hne
       | cons p rest => simp [tyExprs] at this
-    refine ⟨.generic (.named bn) pres, ?_, ?_⟩
+    refine ⟨.generic (.named bn) pres, ?_, ?_, pb.head d _ henv _ rfl (by intro m; simp)⟩
     · rw [hex]
       rw [parseTy_sub_plain d x _ (pb.specialX d (tyAdds ip (.generic b ps)) henv),
         if_neg (ParsesTo_ne_emptyTuple hp1), parseArgs_types hp1]
